@@ -2,6 +2,7 @@ package c19
 
 import (
 	"fmt"
+	spb "github.com/openconfig/gribi/v1/proto/service"
 	"sort"
 	"strings"
 	"testing"
@@ -32,6 +33,10 @@ type Case struct {
 	VRF      string   `json:"vrf,omitempty"`
 	Fault    string   `json:"fault,omitempty"`
 	Test     string   `json:"test,omitempty"`
+	// Variant (conformant): "" = the reference server as it is; "reports-entry-status" = its Get
+	// responses additionally carry the optional rib_status / fib_status of every entry,
+	// truthfully: RIB programmed; FIB programmed only if the latest session negotiated FIB acks
+	Variant string `json:"variant,omitempty"`
 }
 
 func setup() {
@@ -100,8 +105,24 @@ func runConformant(c Case) *ev.Verdict {
 	compliance.SetElectionID(c.ElecBase)
 	compliance.SetDefaultNetworkInstanceName("DEFAULT")
 	compliance.SetNonDefaultVRFName(c.VRF)
-	main := faults.New(nil, []string{c.VRF}, true)
-	nofwd := faults.New(nil, []string{c.VRF}, false)
+	var vf *faults.Fault
+	if c.Variant == "reports-entry-status" {
+		vf = &faults.Fault{Get: func(p *faults.Proxy, _ *spb.GetRequest, resps []*spb.GetResponse) []*spb.GetResponse {
+			fib := spb.AFTEntry_NOT_PROGRAMMED
+			if p.LastAckType() == spb.SessionParameters_RIB_AND_FIB_ACK {
+				fib = spb.AFTEntry_PROGRAMMED
+			}
+			for _, r := range resps {
+				for _, e := range r.GetEntry() {
+					e.RibStatus, e.FibStatus = spb.AFTEntry_PROGRAMMED, fib
+				}
+			}
+			return resps
+		}}
+		v.Class("conformant-variant:" + c.Variant)
+	}
+	main := faults.New(vf, []string{c.VRF}, true)
+	nofwd := faults.New(vf, []string{c.VRF}, false)
 	defer main.Stop()
 	defer nofwd.Stop()
 	skips := 0
@@ -236,6 +257,9 @@ func TestCampaign(t *testing.T) {
 		rapid.Check(t, func(rt *rapid.T) {
 			c := Case{Kind: "conformant", ElecBase: bases[rapid.IntRange(0, len(bases)-1).Draw(rt, "base")], VRF: vrfs[rapid.IntRange(0, len(vrfs)-1).Draw(rt, "vrf")]}
 			c.Order = rapid.Permutation(names).Draw(rt, "order")
+			if rapid.IntRange(0, 2).Draw(rt, "variant?") == 0 {
+				c.Variant = "reports-entry-status"
+			}
 			v := runCase(c)
 			col.Check(rt, ev.JSON(c), v)
 		})
